@@ -38,6 +38,12 @@ pub enum Spec17 {
     FillRagged { target: u8, bytes: bool, channels: usize, cap: usize, bps: usize, whole: usize, extra: usize },
     /// with_size(cap) -> resize(new_size) -> fill of `samples` inter-channel samples
     FillAfterResize { bytes: bool, channels: usize, cap: usize, new_size: usize, samples: usize },
+    /// frame-level: a buffer of capacity 64 filled with `filled` samples per channel, one sample
+    /// (channel `ch`, position first/middle/last of the filled part) outside the width
+    FramePartialBad { channels: usize, filled: usize, ch: usize, pos: u8, value: i32 },
+    /// stream-level: `blocks` full 64-sample blocks plus a tail of `tail` samples; out-of-range
+    /// samples either everywhere (`all_bad`) or once in the last block (channel `ch`, last position)
+    StreamBadSample { mt: bool, workers: usize, channels: usize, blocks: usize, tail: usize, all_bad: bool, ch: usize },
 }
 
 fn channel_values() -> Vec<usize> {
@@ -126,6 +132,33 @@ pub fn grid17() -> Vec<Spec17> {
                 for whole in [0usize, 1, 31, 32] {
                     for extra in 1..unit.min(4) {
                         g.push(Spec17::FillRagged { target, bytes, channels, cap: 32, bps, whole, extra });
+                    }
+                }
+            }
+        }
+    }
+    for channels in [1usize, 2, 3, 8] {
+        for filled in [64usize, 63, 40, 17, 2, 1] {
+            for ch in 0..channels.min(3) {
+                let ch = if ch == 2 { channels - 1 } else { ch };
+                for pos in 0..3u8 {
+                    for value in [1i32 << 15, -(1 << 15) - 1, i32::MAX] {
+                        g.push(Spec17::FramePartialBad { channels, filled, ch, pos, value });
+                    }
+                }
+            }
+        }
+    }
+    for mt in [false, true] {
+        for workers in [1usize, 2, 4] {
+            if !mt && workers != 1 {
+                continue;
+            }
+            for channels in [1usize, 2, 3] {
+                for (blocks, tail) in [(1usize, 0usize), (1, 17), (3, 1), (12, 0), (12, 40), (0, 5)] {
+                    g.push(Spec17::StreamBadSample { mt, workers, channels, blocks, tail, all_bad: true, ch: 0 });
+                    for ch in 0..channels {
+                        g.push(Spec17::StreamBadSample { mt, workers, channels, blocks, tail, all_bad: false, ch });
                     }
                 }
             }
@@ -226,6 +259,7 @@ fn domain17(s: &Spec17) -> Dom {
             }
         }
         Spec17::FillRagged { .. } => Dom::Unlisted,
+        Spec17::FramePartialBad { .. } | Spec17::StreamBadSample { .. } => Dom::Invalid,
         Spec17::FillAfterResize { new_size, samples, .. } => {
             if samples > new_size {
                 Dom::Invalid
@@ -406,6 +440,47 @@ fn exec17(s: &Spec17) -> String {
                     Err(_) => "Err".into(),
                 }
             }
+            Spec17::FramePartialBad { channels, filled, ch, pos, value } => {
+                let v = enc::verified(&cfg).unwrap();
+                let mut fb = FrameBuf::with_size(*channels, 64).unwrap();
+                // a full fill first, so that the unfilled tail of every channel holds old (valid) data
+                fb.fill_interleaved(&vec![2i32; 64 * channels]).unwrap();
+                let mut d = vec![1i32; filled * channels];
+                let t = match pos {
+                    0 => 0,
+                    1 => filled / 2,
+                    _ => filled - 1,
+                };
+                d[t * channels + ch] = *value;
+                fb.fill_interleaved(&d).unwrap();
+                let si = StreamInfo::new(44100, *channels, 16).unwrap();
+                match flacenc::encode_fixed_size_frame(&v, &fb, 0, &si) {
+                    Ok(_) => "Ok".into(),
+                    Err(_) => "Err".into(),
+                }
+            }
+            Spec17::StreamBadSample { mt, workers, channels, blocks, tail, all_bad, ch } => {
+                cfg.multithread = *mt;
+                cfg.workers = NonZeroUsize::new(*workers);
+                cfg.block_size = 64;
+                let v = enc::verified(&cfg).unwrap();
+                let len = blocks * 64 + tail;
+                let mut samples = vec![5i32; len * channels];
+                if *all_bad {
+                    // 24-bit material declared as 16-bit: every block is out of range
+                    for (i, x) in samples.iter_mut().enumerate() {
+                        *x = if i % 2 == 0 { 3_000_000 } else { -3_000_000 };
+                    }
+                } else if len > 0 {
+                    samples[(len - 1) * channels + ch] = 40_000;
+                }
+                let a = Arc::new(Audio { channels: *channels, bps: 16, rate: 44100, samples, recipe: "bad-samples".into() });
+                let src = TestSource::new(a, FillMode::Int, false);
+                match flacenc::encode_with_fixed_block_size(&v, src, 64) {
+                    Ok(_) => "Ok".into(),
+                    Err(_) => "Err".into(),
+                }
+            }
             Spec17::FillRagged { target, bytes, channels, cap, bps, whole, extra } => {
                 let mut fb = FrameBuf::with_size(*channels, *cap).unwrap();
                 let mut cx = Context::new(*bps, *channels);
@@ -485,6 +560,8 @@ fn spec17_class(s: &Spec17) -> String {
         Spec17::FrameBufNew { channels, size } => format!("FrameBuf::with_size(ch={},size={})", v(*channels), v(*size)),
         Spec17::FillInt { target, channels, cap, samples } => format!("{}::fill_interleaved(ch={},cap={},samples_per_channel={})", ["FrameBuf", "Context", "(FrameBuf,Context)"][*target as usize], channels, cap, samples),
         Spec17::FillBytes { target, channels, cap, bps, bytes_per_sample, nbytes } => format!("{}::fill_le_bytes(ch={},cap={},bps={},bytes_per_sample={},nbytes={})", ["FrameBuf", "Context", "(FrameBuf,Context)"][*target as usize], channels, cap, bps, v(*bytes_per_sample), nbytes),
+        Spec17::FramePartialBad { channels, filled, ch, pos, value } => format!("encode_fixed_size_frame({channels} ch, buffer of 64 filled with {filled}, sample {value} in channel {ch} at {} of the filled part, 16 bit)", ["the start", "the middle", "the end"][*pos as usize]),
+        Spec17::StreamBadSample { mt, workers, channels, blocks, tail, all_bad, ch } => format!("encode_with_fixed_block_size[{}, W={workers}]({channels} ch x 16 bit, {blocks} blocks of 64 + {tail}: {})", if *mt { "mt" } else { "st" }, if *all_bad { "every sample is 24-bit material".to_string() } else { format!("last sample of channel {ch} = 40000") }),
         Spec17::FillRagged { target, bytes, channels, cap, bps, whole, extra } => format!("{}::{}(ch={},cap={},bps={}: {} whole inter-channel samples + {} stray {})", ["FrameBuf", "Context", "(FrameBuf,Context)"][*target as usize], if *bytes { "fill_le_bytes" } else { "fill_interleaved" }, channels, cap, bps, whole, extra, if *bytes { "bytes" } else { "values" }),
         Spec17::FillAfterResize { bytes, channels, cap, new_size, samples } => format!("FrameBuf::with_size(ch={channels},{cap}) -> resize({new_size}) -> {}({samples} samples per channel)", if *bytes { "fill_le_bytes" } else { "fill_interleaved" }),
     }
@@ -529,6 +606,8 @@ fn spec17_sig(s: &Spec17, outcome: &str) -> String {
         Spec17::FrameBufNew { .. } => "FrameBuf::with_size".into(),
         Spec17::FillInt { target, .. } => format!("{}::fill_interleaved|too-long", ["FrameBuf", "Context", "Tuple"][*target as usize]),
         Spec17::FillBytes { target, bytes_per_sample, .. } => format!("{}::fill_le_bytes|{}", ["FrameBuf", "Context", "Tuple"][*target as usize], if *bytes_per_sample == 0 { "bps0" } else if *bytes_per_sample > 4 { "bps>4" } else { "mismatch-or-too-long" }),
+        Spec17::FramePartialBad { .. } => "encode_frame|sample-in-partial-block".into(),
+        Spec17::StreamBadSample { mt, all_bad, .. } => format!("encode_stream[{}]|{}", if *mt { "mt" } else { "st" }, if *all_bad { "all-samples" } else { "sample-in-last-block" }),
         Spec17::FillRagged { target, bytes, .. } => format!("{}::{}|ragged-length", ["FrameBuf", "Context", "Tuple"][*target as usize], if *bytes { "fill_le_bytes" } else { "fill_interleaved" }),
         Spec17::FillAfterResize { bytes, .. } => format!("FrameBuf::resize+{}|too-long", if *bytes { "fill_le_bytes" } else { "fill_interleaved" }),
     };
